@@ -168,12 +168,14 @@ RCheckFinished(r, w, C) ==
 
 \* send_naks: [r, out, ind]                                       recv.rs:719
 RSendNaks(r, C) ==
-  LET same == r.nakMark = r.rsize
-      lim == same /\ CLimit(r.tNak, RToNak(C), C.limit)
+  LET recv == r.st = "Recv"          \* the NAK timer is only touched while receiving
+      same == r.nakMark = r.rsize
+      lim == recv /\ same /\ CLimit(r.tNak, RToNak(C), C.limit)
       f == IF lim THEN RFault([r EXCEPT !.tNak = CUpdate(r.tNak, RToNak(C), C.limit)], C, "NakLimitReached")
            ELSE [r |-> r, ind |-> <<>>, go |-> TRUE]
   IN IF ~f.go THEN [r |-> f.r, out |-> <<>>, ind |-> f.ind]
-     ELSE LET r1 == IF same THEN [f.r EXCEPT !.tNak = CRestart(f.r.tNak, RToNak(C), C.limit)]
+     ELSE LET r1 == IF ~recv THEN f.r
+                    ELSE IF same THEN [f.r EXCEPT !.tNak = CRestart(f.r.tNak, RToNak(C), C.limit)]
                     ELSE [f.r EXCEPT !.tNak = CReset(f.r.tNak), !.nakMark = f.r.rsize]
               n == TMin(Len(r1.naks), RMaxNak(C))
               reqs == SubSeq(r1.naks, 1, n)
